@@ -651,8 +651,12 @@ class Convect(BasicOperator):
 
         args_1 = [i for i in a if not i.is_commutative]
         c1     = [i for i in a if not i in args_1]
-        args_2 = [i for i in b if not i.is_commutative]
-        c2     = [i for i in b if not i in args_2]
+        # convect(F, G) = (F . nabla) G differentiates its second argument: only constant
+        # coefficients can be taken out of it (a scalar function or a coordinate cannot)
+        c2     = [i for i in b if isinstance(i, _coeffs_registery)]
+        args_2 = [i for i in b if not i in c2]
+        if not args_2:
+            return S.Zero
 
         a = reduce(mul, args_1)
         b = reduce(mul, args_2)
